@@ -5,6 +5,7 @@ from ..model import AnalysisError, body_nodes
 from ..dataflow import defs_reaching
 from ..guards import lower_bound
 from .shared import grd_empty, idx1, yields_of, row_index_of, enclosing_loop
+from ..pattern import pmatch, pstmt, text, alpha, dump, find
 
 EXPLANATION = (
     "Structural necessary conditions of the five DataFrame joins decided from source: (TS-other) typestate of the right-hand "
@@ -115,24 +116,35 @@ def check(ctx):
                clause="left_join returns every left row exactly once, in order and with its own columns unchanged")
     inn = repo.fn(f"{DF}.inner_join")
     ys_i = yields_of(inn)
-    idx_self = {norm(row_index_of(y.value.elts[1])[1]) for y in ys_i
-                if enclosing_loop(inn, y) is not None and norm(enclosing_loop(inn, y).iter) == f"{inn.params[0]}.items()"
-                and row_index_of(y.value.elts[1])[1] is not None}
-    idx_other = {norm(row_index_of(y.value.elts[1])[1]) for y in ys_i
-                 if enclosing_loop(inn, y) is not None and norm(enclosing_loop(inn, y).iter) != f"{inn.params[0]}.items()"
-                 and row_index_of(y.value.elts[1])[1] is not None}
-    ok = len(idx_self) == 1 and len(idx_other) == 1 and list(idx_other)[0] == f"src[{list(idx_self)[0]}]"
-    ctx.ob("IDX", inn, f"left rows {sorted(idx_self)} / right rows {sorted(idx_other)}", inn.node, ok,
+    unpack = [n for n in body_nodes(inn.node) if isinstance(n, ast.Assign) and isinstance(n.targets[0], ast.Tuple)
+              and isinstance(n.value, ast.Call) and isinstance(n.value.func, ast.Attribute) and n.value.func.attr == "_get_join_indices"]
+    ok = False
+    desc = "found, src = self._get_join_indices(...)"
+    if unpack and len(unpack[0].targets[0].elts) == 2:
+        F, SRC = (text(e) for e in unpack[0].targets[0].elts)
+        own_iter = f"{inn.params[0]}.items()"
+        idx_self = {norm(row_index_of(y.value.elts[1])[1]) for y in ys_i
+                    if enclosing_loop(inn, y) is not None and norm(enclosing_loop(inn, y).iter) == own_iter
+                    and row_index_of(y.value.elts[1])[1] is not None}
+        idx_other = {norm(row_index_of(y.value.elts[1])[1]) for y in ys_i
+                     if enclosing_loop(inn, y) is not None and norm(enclosing_loop(inn, y).iter) != own_iter
+                     and row_index_of(y.value.elts[1])[1] is not None}
+        ok = idx_self == {F} and idx_other == {f"{SRC}[{F}]"}
+        desc = f"left rows {sorted(idx_self)} / right rows {sorted(idx_other)}"
+    ctx.ob("IDX", inn, desc, inn.node, ok,
            "matched left rows and their right rows are selected by the same found/src pair" if ok else
            "left and right columns of inner_join are selected by indices that do not correspond",
            clause="inner_join is exactly the matched subset")
     for name in ("inner_join", "left_join"):
         fn = repo.fn(f"{DF}.{name}")
-        loops = [n for n in ast.walk(fn.node) if isinstance(n, ast.For) and norm(n.iter) == "other.items()"]
+        gj = [c for _, c in calls_in(fn) if isinstance(c.func, ast.Attribute) and c.func.attr == "_get_join_indices"]
+        rname = norm(gj[0].args[0]) if gj and gj[0].args else "other"
+        by2n = norm(gj[0].args[2]) if gj and len(gj[0].args) > 2 else "by2"
+        loops = [n for n in ast.walk(fn.node) if isinstance(n, ast.For) and norm(n.iter) == f"{rname}.items()"]
         ok = bool(loops)
         for l in loops:
             skips = [norm(s.test) for s in l.body if isinstance(s, ast.If) and any(isinstance(x, ast.Continue) for x in s.body)]
-            ok = ok and any("in by2" in s for s in skips) and any(f"in {fn.params[0]}" in s for s in skips)
+            ok = ok and any(f"in {by2n}" in s for s in skips) and any(f"in {fn.params[0]}" in s for s in skips)
         ctx.ob("IDX", fn, "right columns: skip key columns and names already present", loops[0] if loops else fn.node, ok,
                "key columns of the right side and clashing names are not copied" if ok else
                "right-hand key columns / clashing names are not skipped: left columns can be overwritten by right ones",
@@ -188,8 +200,8 @@ def check(ctx):
     # ---------------------------------------------------------------- SIB-6
     s1 = repo.fn(f"{DF}._split_join_by")
     s2 = repo.fn(f"{LOD}._split_join_by")
-    d1 = [ast.dump(x) for x in s1.node.body if not (isinstance(x, ast.Expr) and isinstance(x.value, ast.Constant))]
-    d2 = [ast.dump(x) for x in s2.node.body if not (isinstance(x, ast.Expr) and isinstance(x.value, ast.Constant))]
+    d1 = [dump(x) for x in alpha(s1.node).body if not (isinstance(x, ast.Expr) and isinstance(x.value, ast.Constant))]
+    d2 = [dump(x) for x in alpha(s2.node).body if not (isinstance(x, ast.Expr) and isinstance(x.value, ast.Constant))]
     ctx.ob("SIB-6", s1, "_split_join_by: DataFrame == ListOfDicts", s1.node, d1 == d2,
            "both classes split by-tuples identically" if d1 == d2 else "DataFrame and ListOfDicts split (left,right) keys differently",
            nontrivial=False, clause="key columns may be named differently on the two sides")
@@ -216,41 +228,52 @@ def check(ctx):
            "the left/right elements of the by-tuples are swapped or not taken by position",
            clause="key columns may be named differently on the two sides")
     fj = repo.fn(f"{DF}.full_join")
-    rev_calls = [c for f, c in calls_in(fj) if isinstance(c.func, ast.Attribute) and c.func.attr == "left_join"]
-    ctx.count("left_join calls in full_join", len(rev_calls), 2)
-    for c in rev_calls:
-        recv = norm(c.func.value)
-        first = norm(c.args[0]) if c.args else ""
+    P, O, BY = fj.params[0], fj.params[1], fj.vararg
+    stm = sorted((n for n in body_nodes(fj.node) if isinstance(n, ast.stmt)), key=lambda n: n.lineno)
+
+    def first(pattern, env=None):
+        for n in stm:
+            bb = pstmt(pattern, n, dict(env or {}))
+            if bb is not None:
+                return n, bb
+        return None, None
+    sa_, ba_ = first(f"_A = {P}.modify(_aid_=__)")
+    sb_, bb_ = first(f"_B = {O}.modify(_bid_=__)")
+    if ba_ is None or bb_ is None:
+        raise AnalysisError("DataFrame.full_join: the synthetic row ids _aid_/_bid_ are no longer attached with modify(); re-confirm SIB-6")
+    env = {"_A": ba_["_A"], "_B": bb_["_B"]}
+    sab, bab = first(f"_AB = _A.left_join(_B, *{BY})", env)
+    ctx.ob("SIB-6", fj, text(sab) if sab else "ab = a.left_join(b, *by)", sab or fj.node, bab is not None,
+           "forward join: left frame joined with the right frame by the keys as given" if bab is not None else
+           "the forward join is not a.left_join(b, *by)", nontrivial=False)
+    ctx.count("left_join calls in full_join", len([c for _, c in calls_in(fj) if isinstance(c.func, ast.Attribute) and c.func.attr == "left_join"]), 2)
+    if bab is not None:
+        env["_AB"] = bab["_AB"]
+        san, ban = first("_B = _B.anti_join(_AB, '_bid_')", env)
+        anti = [c for _, c in calls_in(fj) if isinstance(c.func, ast.Attribute) and c.func.attr == "anti_join"]
+        ctx.ob("SIB-6", fj, text(anti[0]) if anti else "b = b.anti_join(ab, '_bid_')", anti[0] if anti else fj.node, ban is not None and len(anti) == 1,
+               "right rows still to be added are those whose synthetic row id does not occur in the left-join result" if ban is not None else
+               "unused right rows are not determined by the synthetic row id against the left-join result: left_join consumes only the "
+               "FIRST right row per key, so further right rows sharing a matched key are neither joined nor appended -- they vanish",
+               clause="full_join contains every right row at least once")
+    rev = [c for _, c in calls_in(fj) if isinstance(c.func, ast.Attribute) and c.func.attr == "left_join" and text(c.func.value) == text(env["_B"])]
+    for c in rev:
         star = [a for a in c.args if isinstance(a, ast.Starred)]
-        if not star:
-            continue
-        byname = norm(star[0].value)
-        if recv == "a":
-            ok = byname == fj.vararg
-            ctx.ob("SIB-6", fj, norm(c), c, ok, "forward join uses by as given" if ok else "forward join does not use by as given", nontrivial=False)
-        else:
-            # reverse join: operand roles are swapped, so by-tuples must be swapped too
-            rev = False
-            if isinstance(star[0].value, ast.Name):
-                for d in defs_reaching(fj, star[0].value.id, c):
-                    if d.value is not None and ("reversed(" in norm(d.value) or "[::-1]" in norm(d.value)) and fj.vararg in norm(d.value):
-                        rev = True
-            ctx.ob("SIB-6", fj, norm(c), c, rev,
-                   "reverse join receives the by-tuples with left/right swapped" if rev else
-                   f"reverse join {recv}.left_join({first}, ...) swaps the operands but reuses the by-tuples unswapped: "
-                   f"renamed keys are looked up on the wrong side", clause="key columns may be named differently on the two sides")
-    anti = [c for f, c in calls_in(fj) if isinstance(c.func, ast.Attribute) and c.func.attr == "anti_join"]
-    ok = bool(anti) and all(len(c.args) == 2 and norm(c.args[0]) == "ab" and isinstance(c.args[1], ast.Constant) and c.args[1].value == "_bid_"
-                            for c in anti)
-    ctx.ob("SIB-6", fj, norm(anti[0]) if anti else "b.anti_join(ab, '_bid_')", anti[0] if anti else fj.node, ok,
-           "right rows still to be added are those whose synthetic row id does not occur in the left-join result" if ok else
-           "unused right rows are not determined by the synthetic row id against the left-join result: left_join consumes only the "
-           "FIRST right row per key, so further right rows sharing a matched key are neither joined nor appended -- they vanish",
-           clause="full_join contains every right row at least once")
+        okr = bool(c.args) and text(c.args[0]) == text(env["_A"]) and bool(star)
+        swapped = False
+        if okr and isinstance(star[0].value, ast.Name) and star[0].value.id != BY:
+            for d in defs_reaching(fj, star[0].value.id, c):
+                if d.value is not None and ("reversed(" in norm(d.value) or "[::-1]" in norm(d.value)) and BY in {x.id for x in ast.walk(d.value) if isinstance(x, ast.Name)}:
+                    swapped = True
+        ctx.ob("SIB-6", fj, text(c), c, okr and swapped,
+               "reverse join receives the by-tuples with left/right swapped" if (okr and swapped) else
+               f"reverse join {text(c)} swaps the operands but reuses the by-tuples unswapped: renamed keys are looked up on the wrong side",
+               clause="key columns may be named differently on the two sides")
     ren = [n for n in ast.walk(fj.node) if isinstance(n, ast.Assign) and isinstance(n.targets[0], ast.Subscript)
            and isinstance(n.value, ast.Call) and isinstance(n.value.func, ast.Attribute) and n.value.func.attr == "pop"]
-    ok = bool(ren) and all(norm(n.targets[0].slice).endswith("[0]") and norm(n.value.args[0]).endswith("[1]") for n in ren)
-    ctx.ob("SIB-6", fj, norm(ren[0]) if ren else "rename of the right-hand key in the reverse part", ren[0] if ren else fj.node, ok,
+    ok = bool(ren) and all(pmatch("_X[0]", n.targets[0].slice) is not None and n.value.args and pmatch("_X[1]", n.value.args[0], {"_X": pmatch("_X[0]", n.targets[0].slice)["_X"]}) is not None
+                           and text(n.targets[0].value) == text(n.value.func.value) for n in ren)
+    ctx.ob("SIB-6", fj, text(ren[0]) if ren else "rename of the right-hand key in the reverse part", ren[0] if ren else fj.node, ok,
            "in the reverse part the right-hand key column is renamed to the left-hand name" if ok else
            "the reverse part keeps the right-hand key name (or renames the wrong way): rbind then splits one key into two columns",
            clause="full_join contains every left row and every right row")
